@@ -6,6 +6,7 @@ import (
 	"flag"
 	"fmt"
 	"sort"
+	"strings"
 
 	"go.flow.arcalot.io/engine/internal/vsched"
 )
@@ -18,6 +19,15 @@ func init() { register("sched", cmdSched) }
 // before every synchronisation statement).  For each generated case: one baseline run records which points are passed;
 // then the same case is re-run once per (sampled) point with that point's first arrival(s) held for `-hold` ms.  A pure
 // delay must not change the result of a workflow whose meaning fixes a single result.
+//
+// Goroutine-start points (kind "gostart": first statement of a goroutine body) are never subject to the sampling and
+// EVERY arrival at them (= every goroutine started there in the baseline run, up to maxStartArrivals) is held once: the
+// property's quantifier names goroutine start explicitly and there are few of them.
+//
+// The delay-free baseline is itself one placement of delays (all of length zero): both baseline runs are written out
+// (`baseline_keys`) and the monitor judges them against the declarative meaning where that is unique.  Workflows with
+// foreach steps (items from the input and from earlier steps, sub-workflows with real durations) and a few targeted
+// shapes are generated in cmd_sched_foreach.go.
 
 func resultKey(c map[string]any) string {
 	r, _ := c["result"].(loopResult)
@@ -38,6 +48,9 @@ func cmdSched(args []string) int {
 	})
 	w := openOut(c.out)
 	defer w.close()
+	if c.tier == "thorough" {
+		maxStartArrivals = 12
+	}
 	r := newRng(c.seed)
 	for i := 0; i < c.n; i++ {
 		cr := r.fork()
@@ -98,67 +111,128 @@ func cmdSched(args []string) int {
 		beh := map[string]Behaviour{"a": {Outcome: "success"}, "d": {Outcome: "error"}, "b": {Outcome: "success"}}
 		sweepCase(w, cr, fmt.Sprintf("sched-stop-%d-%d", c.seed, i), wf, wf.yaml(nil, nil), beh, map[string]any{"name": "nm"}, hold, 0)
 	}
+	// workflows with foreach steps and the targeted goroutine-start / late-items shapes (cmd_sched_foreach.go)
+	schedForeachCases(w, r, c, c.n+nScen, hold, maxPoints)
 	return 0
 }
+
+// maxStartArrivals bounds how many arrivals at one goroutine-start point are held (one run each); 12 in the thorough tier.
+var maxStartArrivals = 6
+
+func isStartPoint(p string) bool { return strings.HasSuffix(p, ":gostart") }
 
 // sweepCase runs one workflow without delays (twice: the case needs a single reproducible result) and then once per
 // synchronisation point passed by the baseline run with that point held for `hold` ms.
 func sweepCase(w *lineWriter, cr *rng, id string, wf *AWf, text string, beh map[string]Behaviour, input map[string]any, hold, maxPoints int) {
-		vsched.SetPlan(nil)
-		vsched.Record(true)
-		base := execEngineCase(id+"-base", wf, text, beh, input, engineOpts{cancelAfterMs: -1})
-		hits := vsched.Hits()
-		vsched.Record(false)
-		if _, skipped := base["skip"]; skipped {
-			base["kind"] = "sched"
-			w.emit(base)
-			return
-		}
-		// the baseline must be reproducible without any delay, otherwise the case has no single result
-		again := execEngineCase(id+"-base2", wf, text, beh, input, engineOpts{cancelAfterMs: -1})
-		baseKey := resultKey(base)
-		if resultKey(again) != baseKey {
-			base["kind"] = "sched"
-			base["skip"] = "baseline not reproducible: " + baseKey + " vs " + resultKey(again)
-			w.emit(base)
-			return
-		}
-		points := make([]string, 0, len(hits))
-		for p := range hits {
+	sweepCaseRun(w, cr, id, hold, maxPoints, false, func(caseID string) map[string]any {
+		return execEngineCase(caseID, wf, text, beh, input, engineOpts{cancelAfterMs: -1})
+	})
+}
+
+// sweepCaseRun is sweepCase over an arbitrary way of running the case (`run` must execute the same case every time).
+// deepNth: later arrivals at a point are held as well (cases in which the same code runs in several workflows at once).
+func sweepCaseRun(w *lineWriter, cr *rng, id string, hold, maxPoints int, deepNth bool, run func(caseID string) map[string]any) {
+	vsched.SetPlan(nil)
+	vsched.Record(true)
+	base := run(id + "-base")
+	hits := vsched.Hits()
+	vsched.Record(false)
+	base["kind"] = "sched"
+	if _, skipped := base["skip"]; skipped {
+		w.emit(base)
+		return
+	}
+	base["id"] = id
+	base["hold_ms"] = hold
+	base["points_hit"] = len(hits)
+	// the baseline must be reproducible without any delay, otherwise the case has no single result: no sweep then.  Both
+	// results are written out; whether one of them contradicts the meaning of the workflow is for the monitor to say.
+	again := run(id + "-base2")
+	baseKey := resultKey(base)
+	base["base_key"] = baseKey
+	base["baseline_keys"] = []string{baseKey, resultKey(again)}
+	base["baseline_results"] = []any{base["result"], again["result"]}
+	if resultKey(again) != baseKey {
+		base["unstable_baseline"] = "baseline not reproducible: " + baseKey + " vs " + resultKey(again)
+		base["baseline_logs"] = []any{base["log"], again["log"]}
+		base["sweeps"] = []map[string]any{}
+		w.emit(base)
+		return
+	}
+	points := make([]string, 0, len(hits))
+	starts := []string{}
+	for p := range hits {
+		if isStartPoint(p) {
+			starts = append(starts, p)
+		} else {
 			points = append(points, p)
 		}
-		sort.Strings(points)
-		if maxPoints > 0 && len(points) > maxPoints {
-			perm := cr.perm(len(points))
-			sel := make([]string, 0, maxPoints)
-			for _, j := range perm[:maxPoints] {
-				sel = append(sel, points[j])
-			}
-			sort.Strings(sel)
-			points = sel
+	}
+	sort.Strings(points)
+	sort.Strings(starts)
+	if maxPoints > 0 && len(points) > maxPoints {
+		perm := cr.perm(len(points))
+		sel := make([]string, 0, maxPoints)
+		for _, j := range perm[:maxPoints] {
+			sel = append(sel, points[j])
 		}
-		sweeps := []map[string]any{}
-		for _, p := range points {
-			nth := 1
-			if hits[p] > 1 && cr.chance(1, 3) {
-				nth = 2
+		sort.Strings(sel)
+		points = sel
+	}
+	type held struct {
+		p   string
+		nth int
+	}
+	plan := []held{}
+	for _, p := range starts { // every goroutine start, every goroutine started there
+		for n := 1; n <= hits[p] && n <= maxStartArrivals; n++ {
+			plan = append(plan, held{p, n})
+		}
+	}
+	for _, p := range points {
+		nth := 1
+		if hits[p] > 1 && cr.chance(1, 3) {
+			nth = 2
+			if deepNth && hits[p] > 2 {
+				m := hits[p]
+				if m > 8 {
+					m = 8
+				}
+				nth = 2 + cr.intn(m-1)
 			}
-			vsched.SetPlan([]vsched.Hold{{ID: p, Nth: nth, DelayMs: hold}})
-			run := execEngineCase(id+"-"+p, wf, text, beh, input, engineOpts{cancelAfterMs: -1})
+		}
+		plan = append(plan, held{p, nth})
+	}
+	sweeps := []map[string]any{}
+	for _, h := range plan {
+		vsched.SetPlan([]vsched.Hold{{ID: h.p, Nth: h.nth, DelayMs: hold}})
+		res := run(id + "-" + h.p)
+		fired := vsched.Applied()
+		vsched.SetPlan(nil)
+		k := resultKey(res)
+		retried := false
+		if k == "no-return" && baseKey != "no-return" {
+			// the watchdog is wall-clock: a stalled process / machine (observed: a 74 ms plugin step that "took" 273 s) looks
+			// like a hang.  A run that does not return is repeated once with the same plan; a real, schedule-induced hang
+			// reproduces, a stall does not (DESIGN.md section 9: re-run once, then count as inconclusive).
+			vsched.SetPlan([]vsched.Hold{{ID: h.p, Nth: h.nth, DelayMs: hold}})
+			res = run(id + "-" + h.p + "-again")
+			fired = vsched.Applied()
 			vsched.SetPlan(nil)
-			k := resultKey(run)
-			entry := map[string]any{"point": p, "nth": nth, "same": k == baseKey, "result": run["result"],
-				"balance": run["balance"], "goroutine_delta": run["goroutine_delta"]}
-			if k != baseKey {
-				entry["log"] = run["log"]
-			}
-			sweeps = append(sweeps, entry)
+			k = resultKey(res)
+			retried = true
 		}
-		base["kind"] = "sched"
-		base["id"] = id
-		base["base_key"] = baseKey
-		base["hold_ms"] = hold
-		base["points_hit"] = len(hits)
-		base["sweeps"] = sweeps
-		w.emit(base)
+		entry := map[string]any{"point": h.p, "nth": h.nth, "same": k == baseKey, "result": res["result"],
+			"balance": res["balance"], "goroutine_delta": res["goroutine_delta"], "wall_ms": res["wall_ms"], "held": fired > 0}
+		if retried {
+			entry["retried_after_timeout"] = true
+		}
+		if k != baseKey {
+			entry["log"] = res["log"]
+		}
+		sweeps = append(sweeps, entry)
+	}
+	base["start_points_hit"] = len(starts)
+	base["sweeps"] = sweeps
+	w.emit(base)
 }
